@@ -5,7 +5,7 @@ import ast
 
 import z3
 
-from .pyvc import (BUILTIN_EXC, NONE, DictModel, Frame, ListModel, OutOfSubset, PathEnd, RaiseSig, ReturnSig, VBool, VClass, VDict, VExc,
+from .pyvc import (VSet, VSeq, BUILTIN_EXC, NONE, DictModel, Frame, ListModel, OutOfSubset, PathEnd, RaiseSig, ReturnSig, VBool, VClass, VDict, VExc,
                    VFunc, VInt, VList, VModule, VNone, VObj, VOpaque, VOpt, VStr, VTuple, is_true, simp)
 
 BYTES_WS = b" \t\n\r\x0b\x0c"
@@ -237,6 +237,8 @@ def all_concrete(eng, args):
 def call_env(eng, spec, recv, name, args, kwargs, node, fr):
     """demonic environment operation"""
     eng.emit("env_call", name=name, recv=recv, args=args, node=node, frame=fr, spec=spec)
+    if getattr(spec, "effect_first", False) and spec.effect:
+        spec.effect(eng, recv, args, None)
     for exc in spec.raises:
         if eng.branch(eng.fresh_bool("env_raises_" + exc.split(".")[-1].split(":")[0]).t):
             eng.emit("env_raise", tag=name, exc=exc, node=node)
@@ -247,7 +249,7 @@ def call_env(eng, spec, recv, name, args, kwargs, node, fr):
         env[p] = a
     for text in spec.ensures:
         eng.assume(eng.truth(eng.eval_spec(text, env)))
-    if spec.effect:
+    if spec.effect and not getattr(spec, "effect_first", False):
         r = spec.effect(eng, recv, args, result)
         if r is not None:
             result = r
@@ -295,6 +297,10 @@ def length_of(eng, v, node=None):
     if isinstance(v, VList):
         m = eng.state.lists[v.lid]
         return z3.IntVal(len(m.items)) if m.items is not None else m.length
+    if isinstance(v, VSet):
+        return eng.state.sets[v.sid][1]
+    if isinstance(v, VSeq):
+        return z3.Length(v.t)
     if isinstance(v, VDict):
         m = eng.state.dicts[v.did]
         if not m.open:
@@ -671,11 +677,33 @@ def call_bound_builtin(eng, recv, attr, args, kwargs, node, fr):
         return list_method(eng, recv, attr, args, kwargs, node, fr)
     if isinstance(recv, VDict):
         return dict_method(eng, recv, attr, args, kwargs, node, fr)
+    if isinstance(recv, VSet):
+        return set_method(eng, recv, attr, args, kwargs, node, fr)
     if isinstance(recv, VOpaque):
         return opaque_method(eng, recv, attr, args, kwargs, node, fr)
     if isinstance(recv, VTuple) and attr == "__len__":
         return VInt(len(recv.items))
     raise OutOfSubset("method %s on %r" % (attr, recv), node)
+
+
+def set_method(eng, sv, attr, args, kwargs, node, fr):
+    arr, card = eng.state.sets[sv.sid]
+    if attr == "__len__":
+        return VInt(card)
+    x = args[0] if args else None
+    if attr in ("add", "discard", "remove"):
+        if not isinstance(x, VInt):
+            raise OutOfSubset("int-set element %r" % (x,), node)
+        eng.emit("set_write", st=sv, node=node, op=attr, arg=x)
+        member = z3.Select(arr, x.t)
+        if attr == "add":
+            eng.state.sets[sv.sid] = (z3.Store(arr, x.t, True), simp(card + z3.If(member, 0, 1)))
+        else:
+            if attr == "remove":
+                eng.builtin_pre("KeyError", member, node)
+            eng.state.sets[sv.sid] = (z3.Store(arr, x.t, False), simp(card - z3.If(member, 1, 0)))
+        return NONE
+    raise OutOfSubset("set method %s" % attr, node)
 
 
 def mkstr(eng, recv, t):
@@ -942,6 +970,8 @@ def list_method(eng, lv, attr, args, kwargs, node, fr):
             m.__dict__.pop("cache", None)
         if m.seq is not None:
             m.seq = z3.Concat(m.seq, z3.Unit(elem_id(eng, args[0])))
+            if m.items is None:
+                m.length = z3.Length(m.seq)
         return NONE
     if attr == "extend":
         list_extend(eng, lv, args[0], node)
@@ -958,6 +988,7 @@ def list_method(eng, lv, attr, args, kwargs, node, fr):
             if m.seq is not None:
                 n = z3.Length(m.seq)
                 m.seq = z3.SubSeq(m.seq, 1, n - 1) if idx == 0 else z3.SubSeq(m.seq, 0, n - 1)
+            eng.emit("list_pop", lst=lv, value=v, node=node)
             return v
         eng.builtin_pre("IndexError", m.length > 0, node)
         if idx not in (0, -1):
@@ -967,8 +998,9 @@ def list_method(eng, lv, attr, args, kwargs, node, fr):
             n = z3.Length(m.seq)
             eng.assume(elem_id(eng, v) == (m.seq[0] if idx == 0 else m.seq[n - 1]))
             m.seq = z3.SubSeq(m.seq, 1, n - 1) if idx == 0 else z3.SubSeq(m.seq, 0, n - 1)
-        m.length = simp(m.length - 1)
+        m.length = simp(m.length - 1) if m.seq is None else z3.Length(m.seq)
         m.__dict__.pop("cache", None)
+        eng.emit("list_pop", lst=lv, value=v, node=node)
         return v
     if attr in ("remove", "discard"):
         eng.emit("list_write", lst=lv, node=node, op=attr, arg=args[0])
